@@ -2255,6 +2255,14 @@ func (db *DB) CommitJournal(ctx context.Context, mode JournalMode) (err error) {
 
 // Drop writes a zero "commit" value to indicate that the database has been deleted.
 func (db *DB) Drop(ctx context.Context) (err error) {
+	// The drop is a local transaction. Hold the write lock so that it waits
+	// for open transactions and for a halt lock granted to a replica.
+	guard, err := db.AcquireWriteLock(ctx, nil)
+	if err != nil {
+		return err
+	}
+	defer guard.Unlock()
+
 	var msg string
 	var commit uint32
 	var txPageCount int
